@@ -1,6 +1,7 @@
 import BoltonsVerif.Generated.C19_LineEndings
 import BoltonsVerif.Generated.C19_StripSets
 import BoltonsVerif.Generated.C19_PySplit
+import BoltonsVerif.Generated.C19_RelSeek
 /-
 C19 — model of the boltons line readers.
 
@@ -370,20 +371,31 @@ def firstBreak : List Nat → Option Nat
 
 /-- `_init_rel_seek` + `_align_to_newline` on a text-mode file of single-byte characters:
     `fo.seek(target)`, read on until a block contains `'\n'`, `fo.seek` ON that line break.
-    `none`: no line break at or after the target — the `while '\n' not in cur` loop of the code
-    never ends (outside the model's domain; the harness does not generate it). -/
+    When no line break follows the target: with `eofOk` the file is left at its end; without, the
+    `while '\n' not in cur` loop of the code never ends (`none`: outside the model's domain, the
+    harness does not generate it).  Which of the two the current code does is regenerated on every
+    run (`Generated.alignStopsAtEof`). -/
+def alignToNewlineE (eofOk : Bool) (c : List Nat) (target : Nat) : Option Nat :=
+  match firstBreak (c.drop target) with
+  | some i => some (target + i)
+  | none => if eofOk then some c.length else none
+
 def alignToNewline (c : List Nat) (target : Nat) : Option Nat :=
-  (firstBreak (c.drop target)).map (target + ·)
+  alignToNewlineE Generated.alignStopsAtEof c target
 
 /-- `JSONLIterator(f, ignore_errors, reverse, rel_seek)` drained, `target = int(size * rel_seek)`:
     forward mode reads the lines from the aligned position on, reverse mode the lines before it -/
-def jsonlRelSeek {α ε : Type} (ws : Nat → Bool) (parse : List Nat → Except ε α) (ignore reverse : Bool) (bs : Nat)
-    (c : List Nat) (target : Nat) : Option (List α × Option ε) :=
-  match alignToNewline c target with
+def jsonlRelSeekE {α ε : Type} (eofOk : Bool) (ws : Nat → Bool) (parse : List Nat → Except ε α)
+    (ignore reverse : Bool) (bs : Nat) (c : List Nat) (target : Nat) : Option (List α × Option ε) :=
+  match alignToNewlineE eofOk c target with
   | none => none
   | some p =>
     some (if reverse then consume ws parse ignore (reverseIterLinesFrom c p bs)
           else consume ws parse ignore (fileLinesT false (c.drop p)))
+
+def jsonlRelSeek {α ε : Type} (ws : Nat → Bool) (parse : List Nat → Except ε α) (ignore reverse : Bool)
+    (bs : Nat) (c : List Nat) (target : Nat) : Option (List α × Option ε) :=
+  jsonlRelSeekE Generated.alignStopsAtEof ws parse ignore reverse bs c target
 
 /-- `rel_seek=0.0` is special-cased by `_init_rel_seek`: position 0, no alignment -/
 def jsonlRelSeekZero {α ε : Type} (ws : Nat → Bool) (parse : List Nat → Except ε α) (ignore reverse : Bool) (bs : Nat)
